@@ -471,10 +471,8 @@ func VerifMinifyTask(n int) {
 	}
 	for name := range vfFiles {
 		if strings.HasSuffix(name, ".bak") && inputs[name] == nil {
-			if t.sync && name == t.dst+".bak" {
-				vKnown("C19-F64") // recorded finding: a sync copy onto its own source (through an alias) returns before the backup is removed
-			}
-			vFail("no backup is left behind") // F38 (fixed): in place through a symbolic link left <link>.bak behind
+			// F64 (fixed): a sync copy onto its own source (through an alias) returned before the backup was removed
+			vFail("no backup is left behind: " + name) // F38 (fixed): in place through a symbolic link left <link>.bak behind
 		}
 	}
 	vReach("end")
